@@ -50,6 +50,7 @@ type Violation struct {
 	Msg     string            `json:"msg,omitempty"`
 	Model   []ModelEntry      `json:"model"`
 	Choices []int             `json:"choices"`
+	VChoices []int            `json:"vchoices,omitempty"`
 	Extra   map[string]string `json:"extra,omitempty"`
 	Pos     string            `json:"pos,omitempty"`
 }
@@ -64,6 +65,7 @@ type CoverWitness struct {
 	Label   string       `json:"label"`
 	Model   []ModelEntry `json:"model"`
 	Choices []int        `json:"choices"`
+	VChoices []int       `json:"vchoices,omitempty"`
 	Hits    int          `json:"hits"`
 }
 
@@ -119,6 +121,7 @@ type Exec struct {
 	ptrIDs    map[*Value]int
 	noteSeq   int
 	ctxErrCells map[string]Value
+	vchoices  []int
 
 	harnessPkg *ssa.Package
 }
@@ -485,7 +488,7 @@ func (ex *Exec) assertTerm(cond *smt.Term, label string, pos string) {
 			r, m = ex.checkSat(nil)
 		}
 		if r == smt.Sat {
-			ex.addViolation(Violation{Label: label, Kind: "assert", Model: ex.modelEntries(m), Choices: ex.choicesSoFar(), Pos: pos, Extra: ex.notes()})
+			ex.addViolation(Violation{Label: label, Kind: "assert", Model: ex.modelEntries(m), Choices: ex.choicesSoFar(), VChoices: append([]int(nil), ex.vchoices...), Pos: pos, Extra: ex.notes()})
 		} else if r == smt.Unknown {
 			ex.inconclusive("assert " + label + ": path feasibility unknown")
 		}
@@ -497,7 +500,7 @@ func (ex *Exec) assertTerm(cond *smt.Term, label string, pos string) {
 	case smt.Unsat:
 		ex.report.Discharged[label]++
 	case smt.Sat:
-		ex.addViolation(Violation{Label: label, Kind: "assert", Model: ex.modelEntries(m), Choices: ex.choicesSoFar(), Pos: pos, Extra: ex.notes()})
+		ex.addViolation(Violation{Label: label, Kind: "assert", Model: ex.modelEntries(m), Choices: ex.choicesSoFar(), VChoices: append([]int(nil), ex.vchoices...), Pos: pos, Extra: ex.notes()})
 	default:
 		ex.inconclusive("assert " + label + ": solver unknown/timeout: " + ex.solver.LastErr)
 	}
@@ -535,7 +538,7 @@ func (ex *Exec) cover(label string) {
 		ex.inconclusive("cover " + label + ": solver unknown")
 		return
 	}
-	ex.report.Covers[label] = &CoverWitness{Label: label, Model: ex.modelEntries(m), Choices: ex.choicesSoFar(), Hits: 1}
+	ex.report.Covers[label] = &CoverWitness{Label: label, Model: ex.modelEntries(m), Choices: ex.choicesSoFar(), VChoices: append([]int(nil), ex.vchoices...), Hits: 1}
 }
 
 // ---- path loop
@@ -556,6 +559,7 @@ func (ex *Exec) resetPath() {
 	ex.ptrIDs = map[*Value]int{}
 	ex.noteSeq = 0
 	ex.ctxErrCells = nil
+	ex.vchoices = nil
 	ex.rt = newRuntimeState(ex)
 }
 
@@ -683,7 +687,7 @@ func (ex *Exec) unexpectedPanic(p targetPanic) {
 	}
 	label := "no-unexpected-panic"
 	if r == smt.Sat {
-		ex.addViolation(Violation{Label: label, Kind: "panic", Msg: msg, Model: ex.modelEntries(m), Choices: ex.choicesSoFar(), Extra: ex.notes()})
+		ex.addViolation(Violation{Label: label, Kind: "panic", Msg: msg, Model: ex.modelEntries(m), Choices: ex.choicesSoFar(), VChoices: append([]int(nil), ex.vchoices...), Extra: ex.notes()})
 	} else if r == smt.Unknown {
 		ex.inconclusive("unexpected panic on a path of unknown feasibility: " + msg)
 	} else {
